@@ -14,7 +14,7 @@ func init() {
 	c07Text := "bounded model checking: goroutines of the real code (go/ssa) are turned into control-flow automata by symbolic execution between visible operations; the product is unrolled K steps into one SMT formula whose schedule, inputs, stage function (uninterpreted F) and failure pattern (uninterpreted predicate E: every subset of failing positions in one query) are solver variables; K is raised until no run of K non-stutter steps exists (completeness threshold), so Final conditions are statements about all complete runs of the configuration. "
 	reg(&PropSpec{
 		ID: "C07", Level: "model_checking",
-		Explanation: c07Text + "C07: Map x {Lift, Try} and FMap x {LiftF, TryF} fed by a producer goroutine (send all, close) or a pre-filled Seq, input capacity 0..2, length 0..3 (4 thorough); Unfold(Lift) with capacity 0..2 (3 thorough, generator failing within 3 steps); Emit(Lift) on the lax virtual clock with (capacity, fails within) in {(0,2),(1,1)} (thorough {(0,3),(1,2),(2,1)}). Two independent consumers (values, errors). Fail-fast: j-th value == F(x_j) with j below the first failing index m, exactly one error == verr{x_m}, Invariant calls <= m+1 (nothing processed further), closed(exx) implies the error is delivered or buffered, Final: counts, both channels closed, stage goroutine exited. Try: g-th value is F of the g-th non-failing element, g-th error is verr of the g-th failing element, Final: both counts complete, function applied exactly n times in input order, both channels closed, all goroutines (producer included) exited.",
+		Explanation: c07Text + "C07: Map x {Lift, Try} and FMap x {LiftF, TryF} fed by a producer goroutine (send all, close) or a pre-filled Seq, input capacity 0..2, length 0..3 (4 thorough); Unfold(Lift) with capacity 0..2 (3 thorough, generator failing within 3 steps); Emit(Lift) on the lax virtual clock with capacity 0..2 and the function failing within the first 3 indices (thorough: within 4, capacity 3 within 3). Two independent consumers (values, errors). Fail-fast: j-th value == F(x_j) with j below the first failing index m, exactly one error == verr{x_m}, Invariant calls <= m+1 (nothing processed further), closed(exx) implies the error is delivered or buffered, Final: counts, both channels closed, stage goroutine exited. Try: g-th value is F of the g-th non-failing element, g-th error is verr of the g-th failing element, Final: both counts complete, function applied exactly n times in input order, both channels closed, all goroutines (producer included) exited.",
 		Assumptions: c07Assumptions,
 		Jobs:        c07Jobs,
 	})
@@ -52,11 +52,11 @@ func c07Jobs(tier string) []JobSpec {
 	for _, c := range ucaps {
 		add("VUnfoldFailFast", 40, map[string]int{"cap": c})
 	}
-	// Emit on the lax clock is expensive (a tick may come between any two steps):
-	// measured cap=0/within=2 95 s, cap=1/within=2 300 s, cap=0/within=3 230 s
-	emit := [][2]int{{0, 2}, {1, 1}}
+	// Emit on the lax clock (cheap since clock ticks are merged into steps; before
+	// that cap=1/within=2 took 300 s)
+	emit := [][2]int{{0, 3}, {1, 3}, {2, 3}}
 	if thorough {
-		emit = [][2]int{{0, 3}, {1, 2}, {2, 1}}
+		emit = [][2]int{{0, 4}, {1, 4}, {2, 4}, {3, 3}}
 	}
 	for _, e := range emit {
 		add("VEmitFailFast", 48, map[string]int{"cap": e[0], "clock": 1, "within": e[1]})
